@@ -5,7 +5,7 @@ signatures) and an independent reading of Rust's outlives rules (declared + impl
 Lifetimes: 'static -> "static"; an int below the number of named lifetimes of the enclosing item is a named lifetime,
 any other int is an anonymous one.
 Types: ("prim",) | ("opaque", opt, borrow|None, tid, args, mut) | ("slice", opt, borrow, flavour) | ("struct", opt, tid, args)."""
-import itertools
+import copy, itertools
 
 LT_NAMES = "abcd" + "efg"
 DEF_LT = {"H1": ["h"], "H2": ["h", "k"], "S1": ["x"], "S2": ["x", "y"], "S3": ["u", "v", "w"], "Op": []}
@@ -52,9 +52,15 @@ def named(n, l):
     return l if isinstance(l, int) and l < n else None
 
 
-def is_self_spelled(t, selfty):
+def spelled_self(t, selfty):
     """selfty = (owner, k) when the method spells its impl type as `Self`: which parameter / return types that affects"""
     return bool(selfty) and t[0] == "opaque" and t[3] == selfty[0] and list(t[4]) == list(range(selfty[1]))
+
+
+def is_self_spelled(t, selfty):
+    """the AST records no implied bound for this reference: the type is written `Self`, or (7th component, set by elide_pass) the
+    borrow is elided in the source although it denotes a named lifetime"""
+    return spelled_self(t, selfty) or (t[0] == "opaque" and len(t) > 6 and bool(t[6]))
 
 
 def ty_ops(n, t, selfty=None):
@@ -344,6 +350,7 @@ def gen_method(rng, D, name, max_lts=4):
     flat_decl(m)
     if rng.random() < 0.88:
         fix_method(D, m)
+    elide_pass(rng, m)
     return m
 
 
@@ -377,6 +384,23 @@ def fixed_methods(D):
              ret=[("opaque", False, None, "H1", [0], False)], attr="constructor")
     flat_decl(m)
     out.append(m)
+    # elided return lifetimes (elision.rs): `&self` wins over another reference; the only reference among the parameters; the
+    # lifetimes of a by-value `self` / of `Self` do not count; a hidden path lifetime (`&Op` from `x: H1`) counts as one position
+    import random as _r
+    none = {"impl_param": {}, "impl_where": [], "meth_param": {}, "meth_where": []}
+    op = lambda l: ("opaque", False, l, "Op", [], False)
+    el = [dict(name="el0", owner="Op", k_impl=0, n=2, self=op(0), params=[op(0), op(1)], ret=[op(0)]),
+          dict(name="el1", owner="Op", k_impl=0, n=1, self=None, params=[op(0), ("prim",)], ret=[op(0)]),
+          dict(name="el2", owner="S1", k_impl=1, n=2, self=("struct", False, "S1", [0]), params=[("struct", False, "S1", [0]), op(1)], ret=[op(1)]),
+          dict(name="el3", owner="H1", k_impl=1, n=2, self=None, params=[("opaque", False, 1, "H1", [0], False), ("prim",)], ret=[op(1)], self_spell=True),
+          dict(name="el4", owner="Op", k_impl=0, n=1, self=None, params=[("struct", False, "S1", [0])], ret=[("struct", False, "S1", [0])]),
+          dict(name="el5", owner="Op", k_impl=0, n=2, self=op(1), params=[op(1), ("slice", False, 0, "u8")], ret=[("slice", False, 1, "str")], wrap="option")]
+    for m in el:
+        m.setdefault("wrap", "plain"); m["places"] = copy.deepcopy(none)
+        m["pnames"] = (["this"] if m["self"] else []) + [f"p{i}" for i in range(len(m["params"]) - (1 if m["self"] else 0))]
+        flat_decl(m)
+        elide_pass(_r.Random(0), m, p_elide=1.0, p_omit=0.0)
+        out.append(m)
     return out
 
 
@@ -401,6 +425,7 @@ def fix_method(D, m):
 
 # ------------------------------------------------------------------ rendering: Rust
 def r_lt(l, names, n):
+    if l == "_anon": return "'_"
     if l == "static": return "'static"
     return f"'{names[l]}" if l < n else "'_"
 
@@ -409,19 +434,22 @@ def r_generic(tid, args, names, n):
     return tid + (f"<{', '.join(r_lt(a, names, n) for a in args)}>" if args else "")
 
 
-def r_ty(t, names, n, field=False, elide=None, selfty=None):
-    """selfty = (owner, k): spell the impl's own type `Owner<'impl params..>` as `Self` (ast TypeName::SelfType)"""
+def r_ty(t, names, n, field=False, elide=None, selfty=None, elided=(), omit=False):
+    """selfty = (owner, k): spell the impl's own type `Owner<'impl params..>` as `Self` (ast TypeName::SelfType);
+    elided: position keys ('b' / argument index) written as elided although they denote a named lifetime (elide_pass);
+    omit: drop the generic list altogether"""
     k = t[0]
     if k == "prim": return "u8"
+    hide = lambda args: ["_anon" if j in elided else a for j, a in enumerate(args)]
     if k == "struct":
-        s = "Self" if (selfty and t[2] == selfty[0] and list(t[3]) == list(range(selfty[1]))) else r_generic(t[2], t[3], names, n)
+        s = "Self" if (selfty and t[2] == selfty[0] and list(t[3]) == list(range(selfty[1]))) else (t[2] if omit else r_generic(t[2], hide(t[3]), names, n))
         return (f"DiplomatOption<{s}>" if field else f"Option<{s}>") if t[1] else s
     if k == "opaque":
-        inner = "Self" if (selfty and t[3] == selfty[0] and list(t[4]) == list(range(selfty[1]))) else r_generic(t[3], t[4], names, n)
+        inner = "Self" if (selfty and t[3] == selfty[0] and list(t[4]) == list(range(selfty[1]))) else (t[3] if omit else r_generic(t[3], hide(t[4]), names, n))
         if t[2] is None: s = f"Box<{inner}>"
         else:
-            lt = r_lt(t[2], names, n)
-            lt = "" if (lt == "'_" and elide) else lt + " "
+            lt = "'_" if "b" in elided else r_lt(t[2], names, n)
+            lt = "" if (lt == "'_" and (elide or "b" in elided)) else lt + " "
             s = f"&{lt}{'mut ' if t[5] else ''}{inner}"
         return f"Option<{s}>" if t[1] else s
     if k == "slice":
@@ -429,7 +457,8 @@ def r_ty(t, names, n, field=False, elide=None, selfty=None):
         if field:
             s = {"str": f"DiplomatStrSlice<{lt}>", "u8": f"DiplomatSlice<{lt}, u8>", "dstr": f"DiplomatStrSlice<{lt}>"}[t[3]]
         else:
-            lt = "" if (lt == "'_" and elide) else lt + " "
+            if "b" in elided: lt = "'_"
+            lt = "" if (lt == "'_" and (elide or "b" in elided)) else lt + " "
             s = "&" + lt + {"str": "str", "u8": "[u8]", "dstr": "DiplomatStr"}[t[3]]
         return f"Option<{s}>" if t[1] else s
     raise ValueError(t)
@@ -463,7 +492,8 @@ def self_spelling(m):
 
 
 def r_ret(m, names):
-    ts = [r_ty(t, names, m["n"], elide=m.get("elided_ret"), selfty=self_spelling(m)) for t in m["ret"]]
+    re = m.get("ret_elide") or [()] * len(m["ret"])
+    ts = [r_ty(t, names, m["n"], elide=m.get("elided_ret"), selfty=self_spelling(m), elided=re[i]) for i, t in enumerate(m["ret"])]
     return {"plain": ts[0], "option": f"Option<{ts[0]}>", "result_unit": f"Result<{ts[0]}, ()>",
             "result2": f"Result<{ts[0]}, {ts[-1]}>"}[m["wrap"]]
 
@@ -479,8 +509,9 @@ def r_method(m, rng_elide=False, with_attr=False):
         else:
             lt = r_lt(s[2], names, n)
             args.append("&" + ("" if lt == "'_" else lt + " ") + ("mut " if s[5] else "") + "self")
-    for pn, t in zip(m["pnames"][1 if m["self"] else 0:], m["params"][1 if m["self"] else 0:]):
-        args.append(f"{pn}: {r_ty(t, names, n, elide=(int(pn[1:]) % 2 == 0), selfty=self_spelling(m))}")
+    off = 1 if m["self"] else 0
+    for i, (pn, t) in enumerate(zip(m["pnames"][off:], m["params"][off:])):
+        args.append(f"{pn}: {r_ty(t, names, n, elide=(int(pn[1:]) % 2 == 0), selfty=self_spelling(m), omit=(i + off) in m.get('omit_gen', ()))}")
     where = (" where " + ", ".join(r_bounds(l, ss, names) for l, ss in p["meth_where"])) if p["meth_where"] else ""
     rt = r_ret(m, names)
     attr = f"        #[diplomat::attr(auto, {m['attr']})]\n" if (with_attr and m.get("attr")) else ""
@@ -580,3 +611,111 @@ def plain_check_fns(D, m, tag):
 
 def plain_defs(D):
     return "\n".join(r_def(D, n, plain=True) for n in ORDER)
+
+
+# ------------------------------------------------------------------ written lifetimes: what elision.rs is handed (Lifetimes/Elision.v)
+def struct_self_spelled(t, selfty):
+    return bool(selfty) and t[0] == "struct" and t[2] == selfty[0] and list(t[3]) == list(range(selfty[1]))
+
+
+def ty_positions(t, selfty):
+    """the lifetime positions of a written type that count for output elision (Rust's rule: the lifetimes of `Self` do not)"""
+    k = t[0]
+    if k == "opaque":
+        return ([("b", t[2])] if t[2] is not None else []) + ([] if spelled_self(t, selfty) else [(j, a) for j, a in enumerate(t[4])])
+    if k == "slice":
+        return [("b", t[2])]
+    if k == "struct":
+        return [] if struct_self_spelled(t, selfty) else [(j, a) for j, a in enumerate(t[3])]
+    return []
+
+
+def rust_elision_target(m):
+    """Rust's elision rule, read off the signature (not off any state machine): `&self` decides; otherwise the parameters must
+    contain exactly one lifetime position.  Returns the lifetime (index / 'static') or None."""
+    s = m.get("self")
+    if s and s[0] == "opaque" and s[2] is not None:
+        return s[2]
+    sp = self_spelling(m)
+    pos = [l for t in m["params"][1 if s else 0:] for _, l in ty_positions(t, sp)]
+    return pos[0] if len(pos) == 1 else None
+
+
+def elide_pass(rng, m, p_elide=0.5, p_omit=0.3):
+    """choose a different *spelling* of the same signature: return-type lifetimes equal to Rust's elision target are left out
+    (`-> &Op` for `-> &'a Op`), and generic lists consisting of anonymous lifetimes only are dropped (`x: &H1` for `&H1<'_>`)"""
+    n = m["n"]; sp = self_spelling(m)
+    tgt = rust_elision_target(m)
+    m["ret_elide"] = [set() for _ in m["ret"]]
+    if tgt is not None and (tgt == "static" or tgt < n) and not m.get("elided_ret"):
+        for i, t in enumerate(m["ret"]):
+            for key, l in ty_positions(t, sp):
+                # arguments under a borrow that stays written (`&'a T<'_>`) are left alone: the AST would record the implied bound
+                # for the written arguments only, which Model.ty's single flag cannot express (Elision.mark)
+                if key != "b" and t[0] == "opaque" and t[2] is not None and "b" not in m["ret_elide"][i]:
+                    continue
+                if l == tgt and rng.random() < p_elide:
+                    m["ret_elide"][i].add(key)
+            if "b" in m["ret_elide"][i] and t[0] == "opaque":
+                m["ret"][i] = tuple(t[:6]) + (True,)          # an elided borrow: no implied bound in the AST's LifetimeEnv
+    m["omit_gen"] = set()
+    for i, t in enumerate(m["params"]):
+        if m.get("self") and i == 0:
+            continue
+        args = t[4] if t[0] == "opaque" else t[3] if t[0] == "struct" else None
+        if args and all(a != "static" and a >= n for a in args) and rng.random() < p_omit:
+            m["omit_gen"].add(i)
+    return m
+
+
+def c_alt(l, n):
+    return "AStatic" if l == "static" else (f"(ANamed {l})" if l < n else "AAnon")
+
+
+def c_sty(t, n, selfty, elided=(), omit=False):
+    k = t[0]
+    if k == "prim": return "SPrim"
+    el = lambda key, l: "AAnon" if key in elided else c_alt(l, n)
+    if k == "opaque":
+        b = "None" if t[2] is None else f"(Some {el('b', t[2])})"
+        args = [] if omit else [el(j, a) for j, a in enumerate(t[4])]
+        return f"(SOpaque {c_bool(spelled_self(t, selfty))} {c_bool(t[1])} {b} {TID[t[3]]} {c_list(args)} {len(DEF_LT[t[3]])})"
+    if k == "slice":
+        b = "None" if t[2] is None else f"(Some {el('b', t[2])})"
+        return f"(SSlice {c_bool(t[1])} {b})"
+    args = [] if omit else [el(j, a) for j, a in enumerate(t[3])]
+    return f"(SStruct {c_bool(struct_self_spelled(t, selfty))} {c_bool(t[1])} {TID[t[2]]} {c_list(args)} {len(DEF_LT[t[2]])})"
+
+
+def c_ssig(m):
+    n = m["n"]; sp = self_spelling(m); s = m.get("self")
+    if not s: cs = "SelfNone"
+    elif s[0] == "opaque": cs = f"(SelfRef {c_alt(s[2], n)} {TID[s[3]]} {c_list([c_alt(a, n) for a in s[4]])})"
+    else: cs = f"(SelfVal {TID[s[2]]} {c_list([c_alt(a, n) for a in s[3]])})"
+    off = 1 if s else 0
+    ps = [c_sty(t, n, sp, omit=(i + off) in m.get("omit_gen", ())) for i, t in enumerate(m["params"][off:])]
+    rs = [c_sty(t, n, sp, elided=(m.get("ret_elide") or [()] * len(m["ret"]))[i]) for i, t in enumerate(m["ret"])]
+    if m.get("elided_ret"):
+        rs = [c_sty(t, n, sp) for t in m["ret"]]
+    return f"(mkSSig {n} {c_decl(m['decl'])} {cs} {c_list(ps)} {c_list(rs)})"
+
+
+def c_lowered(m, rec):
+    """the oracle's `lowered` record (names as fmt_lifetime prints them) as the Coq term agree_lowered compares with"""
+    names = method_names(m); n = m["n"]
+    def one(x):
+        if x == "static": return "Static"
+        if x.startswith("anon_"): return f"(Lt {n + int(x[5:])})"
+        return f"(Lt {names.index(x)})"
+    f = lambda ls: c_list([c_list([one(x) for x in l]) for l in ls])
+    return f"(Some ({f(rec['params'])}, {f(rec['ret'])}, {rec['num']}))"
+
+
+def plain_elision_probe(D, m):
+    """plain Rust: the method with its elided spelling, whose body hands back a value of the *explicit* return type;
+    rustc accepts it iff the elided lifetimes denote the lifetime rust_elision_target names"""
+    names = method_names(m)
+    el = r_method(m)
+    explicit = dict(m); explicit["ret_elide"] = None
+    rt = r_ret(explicit, names)
+    return f"    {r_impl_header(m)} {{\n" + el.replace("{ todo!() }", "{ let r: " + rt + " = todo!(); r }") + "\n    }"
